@@ -6,7 +6,9 @@ using namespace graphite2;
 #ifndef K
 #define K 2            /* exclusions in the pre-state */
 #endif
+#ifndef FB
 #define FB 1048576.0f
+#endif
 static inline float fin() { float f = nondet_float(); ASSUME(f >= -FB && f <= FB); return f; }
 
 struct Snap { float x[K + 4], xm[K + 4]; unsigned n; };
